@@ -135,7 +135,13 @@ func IsNilConst(v ssa.Value) bool {
 
 // Callee returns the statically known callee of a call instruction, or nil.
 func Callee(c ssa.CallInstruction) *ssa.Function {
-	return c.Common().StaticCallee()
+	f := c.Common().StaticCallee()
+	// an instance of a generic function (`invert[int,string]`) is, in this build mode, a wrapper around the generic
+	// body: the rules identify and enter functions by the declared function
+	if f != nil && f.Origin() != nil {
+		return f.Origin()
+	}
+	return f
 }
 
 // CalleeIs reports whether the call statically targets pkgPath.name (a
